@@ -200,4 +200,16 @@ CLAIMS['C19'] = {
     'note': COMMON_NOTE + "the end-to-end frame theorem is not formalised (it inherits C09's unproved whole-attempt monotonicity); reachability in the oracle uses unique names per world.",
     'technique': 'Lean 4 proof (congruence of lookup / layout / emission in the registry entries they read) + differential correspondence + metamorphic frame oracle',
 }
+CLAIMS['C13'] = {
+    'text': ("Whether the emitted crate type-checks is decided by the real rustc on every run: the implementation's files for generated "
+             "in-fragment worlds are assembled into a crate mirroring the input tree (extern types supplied, ABI strings normalised) and "
+             "compiled with `rustc --emit=metadata`; compile-time assertions generated from the oracle's layout model (size_of, align_of, "
+             "offset_of!, discriminants) are evaluated by rustc in the same compilation. Theorems show that pyxis's acceptance implies the "
+             "preconditions of the compiler errors its output could otherwise hit: field_names_distinct (E0124), enum_cases_distinct (E0084, "
+             "E0081, E0428), align_is_pow2 (E0589), copy_implies_clone (E0204), defaultable_fields (E0277), printed_paths_exist (E0412/E0433), "
+             "vfuncs_have_receiver (E0424), base_fields_named; size checks are C02. Five accepted-but-uncompilable forms are open known "
+             "findings with witnesses (static forwarders, rename clash, packed around aligned, singleton on a non-copyable enum, by-value void)."),
+    'note': COMMON_NOTE + "rustc is the oracle here, not a model; 64-bit host only in the quick tier; prologue/epilogue Rust is the user's responsibility; arrays > 32 in defaultable types and private cross-module items are outside the documented fragment.",
+    'technique': 'real rustc type-check of the emitted crate (oracle) + Lean 4 proofs that acceptance implies the preconditions of the relevant compiler errors + differential correspondence',
+}
 NOT_CLAIMED = {}
